@@ -14,6 +14,7 @@
 //!      (ii) every crate with an injected ownership violation has an error diagnostic;
 //!      and no panic while computing diagnostics.
 mod pgen;
+mod spec;
 mod trans;
 
 use std::collections::{BTreeMap, BTreeSet};
@@ -39,8 +40,8 @@ use cairo_lang_utils::Intern;
 use serde_json::json;
 use vcommon::{Rng, catch};
 
-const CORELIB: &str = "/repo/corelib/src";
-const LOWERING: &str = "/repo/crates/cairo-lang-lowering/src";
+/// the tree under test (a scratch worktree when a seeded change is evaluated)
+fn repo() -> String { std::env::var("VERIF_REPO").unwrap_or_else(|_| "/repo".to_string()) }
 
 #[derive(Clone)]
 struct Unit {
@@ -87,7 +88,7 @@ fn build_db(c: Config) -> RootDatabase {
     };
     b.with_optimizations(opt);
     let mut db = b.build().expect("RootDatabase");
-    init_dev_corelib(&mut db, PathBuf::from(CORELIB));
+    init_dev_corelib(&mut db, PathBuf::from(format!("{}/corelib/src", repo())));
     db
 }
 
@@ -95,7 +96,8 @@ fn build_db(c: Config) -> RootDatabase {
 fn test_data_units() -> Vec<Unit> {
     let mut res = vec![];
     let mut files: Vec<PathBuf> = vec![];
-    for d in [format!("{LOWERING}/borrow_check/test_data"), format!("{LOWERING}/test_data")] {
+    let lowering = format!("{}/crates/cairo-lang-lowering/src", repo());
+    for d in [format!("{lowering}/borrow_check/test_data"), format!("{lowering}/test_data")] {
         let mut fs: Vec<PathBuf> = std::fs::read_dir(&d).map(|r| r.filter_map(|e| e.ok().map(|e| e.path())).collect()).unwrap_or_default();
         fs.retain(|p| p.is_file());
         fs.sort();
@@ -132,7 +134,7 @@ fn test_data_units() -> Vec<Unit> {
 }
 
 fn example_units() -> Vec<Unit> {
-    let mut fs: Vec<PathBuf> = std::fs::read_dir("/repo/examples").map(|r| r.filter_map(|e| e.ok().map(|e| e.path())).collect()).unwrap_or_default();
+    let mut fs: Vec<PathBuf> = std::fs::read_dir(format!("{}/examples", repo())).map(|r| r.filter_map(|e| e.ok().map(|e| e.path())).collect()).unwrap_or_default();
     fs.retain(|p| p.extension().map(|x| x == "cairo").unwrap_or(false) && p.file_stem().map(|x| x != "lib").unwrap_or(false));
     fs.sort();
     fs.iter().filter_map(|f| {
@@ -371,6 +373,7 @@ fn main() {
     let mut accepted_all = 0;
     let mut n_corpus_accepted = 0;
     let mut rejected_samples = vec![];
+    let mut inj_other = vec![];
     for (i, u) in units.iter().enumerate() {
         let mut acc = true;
         for (k, r) in results.iter().enumerate() {
@@ -393,6 +396,7 @@ fn main() {
             n_inj += 1;
             let want = match inj { pgen::Inject::UseAfterMove(_) => "previously moved", _ => "not dropped" };
             if results[0].diags[i].msgs.iter().any(|m| m.contains(want)) { n_inj_kind_ok += 1; }
+            else if inj_other.len() < 12 { inj_other.push(json!({"unit": u.name, "injected": format!("{inj:?}"), "errors": results[0].diags[i].msgs.iter().take(3).collect::<Vec<_>>()})); }
         }
         if u.gen_base { n_base += 1; if acc { n_base_accepted += 1; } else if rejected_samples.len() < 8 {
             rejected_samples.push(json!({"unit": u.name, "errors": results.iter().flat_map(|r| r.diags[i].msgs.iter().take(2).cloned()).take(4).collect::<Vec<_>>()}));
@@ -427,11 +431,40 @@ fn main() {
         }
     }
 
+    // ---------- path oracle (spec.rs) on every crate without error diagnostics ----------
+    let mut spec_cache: BTreeMap<u64, Option<spec::BadPath>> = BTreeMap::new();
+    let mut n_spec_fns = 0;
+    let mut spec_flagged_units = BTreeSet::new();
+    for (i, c) in &results[0].cases {
+        let Ok(c) = c else { continue };
+        let d = &results[0].diags[*i];
+        if d.has_errors || d.panic.is_some() || spec_flagged_units.contains(i) { continue; }
+        n_spec_fns += 1;
+        let bad = spec_cache.entry(c.fingerprint).or_insert_with(|| spec::find_bad_path(&c.sfn, 20000)).clone();
+        if let Some(b) = bad {
+            spec_flagged_units.insert(*i);
+            failures.push(json!({"kind": "ownership_violation_accepted",
+                "why": format!("no error diagnostic, but function {} has a path with: {} (variable v{}), blocks {:?}, ending at {}", c.name, b.what, b.var, b.blocks, b.ends),
+                "config": CONFIGS[0].name, "unit": units[*i].name, "origin": units[*i].origin, "program": units[*i].text, "lowered": c.coq}));
+        }
+    }
+
+    // self-test of the path oracle: on how many functions that the real checker rejects does it find a bad path
+    let (mut n_rej, mut n_rej_found) = (0, 0);
+    let mut seen_rej = BTreeSet::new();
+    for (_, c) in &results[0].cases {
+        let Ok(c) = c else { continue };
+        if c.expected.iter().any(|(k, _)| *k <= 1) && seen_rej.insert(c.fingerprint) {
+            n_rej += 1;
+            if spec_cache.entry(c.fingerprint).or_insert_with(|| spec::find_bad_path(&c.sfn, 20000)).is_some() { n_rej_found += 1; }
+        }
+    }
+
     // ---------- case shards ----------
     let all_cases: Vec<(usize, &trans::FnCase)> = results[0].cases.iter().filter_map(|(i, c)| c.as_ref().ok().map(|c| (*i, c))).collect();
     // the helper functions of the generated crates repeat: one case per distinct (Lowered, answer)
     let mut seen_fp = BTreeSet::new();
-    let cases: Vec<(usize, &trans::FnCase)> = all_cases.iter().copied().filter(|(_, c)| seen_fp.insert((c.fingerprint, c.expected.clone()))).collect();
+    let cases: Vec<(usize, &trans::FnCase)> = all_cases.iter().copied().filter(|(_, c)| seen_fp.insert((c.fingerprint, c.expected.clone(), c.fn_not_dropped.clone()))).collect();
     let mut distinct = BTreeSet::new();
     let mut nontrivial = BTreeSet::new();
     let mut tot = trans::FnStats::default();
@@ -455,8 +488,9 @@ fn main() {
         writeln!(v, "From Coq Require Import List.\nFrom C08 Require Import Lowered Borrow Corr.\nImport ListNotations.\nDefinition cases : list bcase := [").unwrap();
         for (j, (_, c)) in chunk.iter().enumerate() {
             let exp: Vec<String> = c.expected.iter().map(|(k, l)| format!("({k},{l})")).collect();
-            writeln!(v, "  (* {} *)\n  mkcase {} (\n    {})\n    [{}] {}{}", c.name, s * per_shard + j, c.coq, exp.join(";"), c.lowering_has_errors,
-                if j + 1 == chunk.len() { "" } else { ";" }).unwrap();
+            let nd: Vec<String> = c.fn_not_dropped.iter().map(|l| l.to_string()).collect();
+            writeln!(v, "  (* {} *)\n  mkcase {} (\n    {})\n    [{}] {} {} [{}]{}", c.name, s * per_shard + j, c.coq, exp.join(";"), c.lowering_has_errors,
+                c.withdraw_gas_check, nd.join(";"), if j + 1 == chunk.len() { "" } else { ";" }).unwrap();
         }
         writeln!(v, "].\nDefinition bad := Eval vm_compute in check_cases cases.\nPrint bad.").unwrap();
         std::fs::write(out.join(format!("bc_{s:03}.v")), v).unwrap();
@@ -474,10 +508,10 @@ fn main() {
     let summary = json!({
         "units": units.len(), "test_data_units": n_td, "example_units": n_ex, "regression_corpus_units": n_corpus, "regression_corpus_units_accepted_and_compiled_in_all_configs": n_corpus_accepted,
         "generated_base": n_base, "generated_base_accepted_in_all_configs": n_base_accepted,
-        "generated_base_rejected_samples": rejected_samples, "injected_units": n_inj, "injected_with_expected_diagnostic_kind": n_inj_kind_ok,
+        "generated_base_rejected_samples": rejected_samples, "injected_units": n_inj, "injected_with_expected_diagnostic_kind": n_inj_kind_ok, "injected_with_other_error_samples": inj_other,
         "units_accepted_in_all_configs": accepted_all,
         "configs": cfg_summ,
-        "functions_translated": all_cases.len(), "function_cases_after_dedup": cases.len(), "functions_distinct": distinct.len(), "functions_nontrivial_distinct": nontrivial.len(),
+        "functions_translated": all_cases.len(), "functions_of_error_free_crates_path_checked": n_spec_fns, "path_oracle_selftest": {"functions_rejected_by_real_checker": n_rej, "of_which_path_oracle_finds_a_bad_path": n_rej_found}, "function_cases_after_dedup": cases.len(), "functions_distinct": distinct.len(), "functions_nontrivial_distinct": nontrivial.len(),
         "functions_with_real_borrow_diagnostics": with_diag,
         "real_diagnostics_by_kind": {"VariableMoved": kinds[0], "VariableNotDropped": kinds[1], "DesnappingANonCopyableType": kinds[2], "other": kinds[3]},
         "totals": {"blocks": tot.blocks, "statements": tot.stmts, "variables": tot.vars, "matches": tot.matches,
